@@ -55,6 +55,7 @@ type subtreeRun struct {
 	tree    *witnessTree
 	foreign *witnessKey // an ML-DSA cosigner with the witness' name but another key
 	in      *witnessInst
+	nested  []byte // body of a request to serve while the next response is being written
 }
 
 func subtreeNewRun(c subtreeCase, tr *Trace, st *Stats, maxN int, mirror bool) *subtreeRun {
@@ -490,6 +491,13 @@ func (s *subtreeRun) post(body []byte) (int, []byte) {
 	}
 	s.line("sreq %d %s %d %d %x %s %s", rid, form, start, end, hash, witnessHashList(proof), noteCanon)
 	c := &witnessCtx{rid: rid, inst: s.in.id}
+	if nb := s.nested; nb != nil {
+		// while this response is on its way to a slow client, another sign-subtree request is served by the same process
+		s.nested = nil
+		c.onFirstWrite = func() {
+			witnessPost(s.in.w, "/sign-subtree", nb, &witnessCtx{rid: -1, inst: s.in.id})
+		}
+	}
 	status, resp, _, dead, pan := witnessPost(s.in.w, "/sign-subtree", body, c)
 	if pan != nil || dead {
 		s.fail("panic", "sign-subtree panicked or hung: %v", pan)
@@ -532,6 +540,25 @@ func (s *subtreeRun) post(body []byte) (int, []byte) {
 }
 
 // ---------------------------------------------------------------- families
+
+// famNested: two requests served by one process, the second one while the first one's response is still being written
+// (a slow client): each response must consist of cosignatures over ITS OWN range and hash by the signers ITS checkpoint
+// entitles.
+func (s *subtreeRun) famNested(n int) {
+	sgs := []string{"witness", "both", "mirror", "witnessonly"}
+	rs := [][2]int64{{0, 1}, {0, 4}, {4, 8}, {0, int64(n)}, {int64(n) - 1, int64(n)}, {8, 16}}
+	for i := 0; i < 12; i++ {
+		a := subtreeGood(n, rs[i%len(rs)][0], rs[i%len(rs)][1], sgs[i%len(sgs)])
+		b := subtreeGood(n, rs[(i+2)%len(rs)][0], rs[(i+2)%len(rs)][1], sgs[(i+1)%len(sgs)])
+		if !subtreeValid(a.Start, a.End) || a.End > int64(n) || !subtreeValid(b.Start, b.End) || b.End > int64(n) {
+			continue
+		}
+		nb, _, _ := s.build(b)
+		s.nested = nb
+		s.do(a)
+		s.nested = nil
+	}
+}
 
 // subtreeHugeN: sizes above it are "trees nobody can build" (torchwood's proof checker refuses sizes above 2^62)
 const subtreeHugeN = 1 << 40
@@ -837,6 +864,7 @@ func subtreeCasesFor(o *Opts) []subtreeCase {
 	add("bodies", 2)
 	add("roundtrip", 4)
 	add("huge", 2)
+	add("nested", 2)
 	if wide {
 		add("random", 60)
 	} else {
@@ -867,6 +895,9 @@ func subtreeRunCase(c subtreeCase, tr *Trace, st *Stats) []OracleFailure {
 	case "huge":
 		s = subtreeNewRun(c, tr, st, 80, c.Idx%2 == 0)
 		s.famHuge()
+	case "nested":
+		s = subtreeNewRun(c, tr, st, 80, true)
+		s.famNested([]int{16, 70}[c.Idx%2])
 	case "roundtrip":
 		s = subtreeNewRun(c, tr, st, 80, c.Idx%2 == 1)
 		s.famRoundTrip([]int{1, 5, 64, 70}[c.Idx%4])
